@@ -132,10 +132,51 @@ impl World {
         self.tr_event(TrEv::ReadGen(v));
         v
     }
+    /// C08 monitor (scenarios that run whole drivers switch it on): a configuration field that
+    /// only exists or is only valid under a device feature is not touched unless that feature was
+    /// negotiated. Table transcribed from the device sections of the specification (Appendix A).
+    fn check_gated_config_field(&mut self, off: usize, len: usize, write: bool) {
+        if !self.cfg.gate_config_fields || len == 0 {
+            return;
+        }
+        // (device type, first byte, end, feature bit, field)
+        const GATED: &[(u32, usize, usize, u32, &str)] = &[
+            (1, 6, 8, 16, "net.status (VIRTIO_NET_F_STATUS)"),
+            (1, 8, 10, 22, "net.max_virtqueue_pairs (VIRTIO_NET_F_MQ)"),
+            (1, 10, 12, 3, "net.mtu (VIRTIO_NET_F_MTU)"),
+            (2, 8, 12, 1, "blk.size_max (VIRTIO_BLK_F_SIZE_MAX)"),
+            (2, 12, 16, 2, "blk.seg_max (VIRTIO_BLK_F_SEG_MAX)"),
+            (2, 16, 20, 4, "blk.geometry (VIRTIO_BLK_F_GEOMETRY)"),
+            (2, 20, 24, 6, "blk.blk_size (VIRTIO_BLK_F_BLK_SIZE)"),
+            (2, 24, 32, 10, "blk.topology (VIRTIO_BLK_F_TOPOLOGY)"),
+            (2, 32, 33, 11, "blk.writeback (VIRTIO_BLK_F_CONFIG_WCE)"),
+            (3, 0, 4, 0, "console.cols/rows (VIRTIO_CONSOLE_F_SIZE)"),
+            (3, 4, 8, 1, "console.max_nr_ports (VIRTIO_CONSOLE_F_MULTIPORT)"),
+            (3, 8, 12, 2, "console.emerg_wr (VIRTIO_CONSOLE_F_EMERG_WRITE)"),
+            (9, 0, 0x10000, 0, "9p.tag_len/tag (VIRTIO_9P_MOUNT_TAG)"),
+        ];
+        for &(dt, a, b, bit, name) in GATED {
+            if dt == self.tr.device_type && off < b && a < off + len && self.tr.driver_features & (1u64 << bit) == 0 {
+                self.violation(
+                    "config-field-not-negotiated",
+                    name.split(' ').next().unwrap_or(name),
+                    format!(
+                        "{} of configuration bytes {off}..{} touches {name}, but feature bit {bit} was not negotiated (driver features {:#x})",
+                        if write { "write" } else { "read" },
+                        off + len,
+                        self.tr.driver_features
+                    ),
+                );
+                return;
+            }
+        }
+    }
+
     /// Reads `out.len()` bytes of device configuration at `off`; false if out of bounds.
     pub fn t_read_config(&mut self, off: usize, out: &mut [u8]) -> bool {
         self.sched_point(PointKind::Transport);
         self.config_agent_point();
+        self.check_gated_config_field(off, out.len(), false);
         let ok = off.checked_add(out.len()).is_some_and(|e| e <= self.tr.config.len());
         self.ev(0x7a, off as u64, out.len() as u64);
         self.tr_event(TrEv::ReadConfig { off, len: out.len(), ok });
@@ -145,6 +186,7 @@ impl World {
         ok
     }
     pub fn t_write_config(&mut self, off: usize, data: &[u8]) -> bool {
+        self.check_gated_config_field(off, data.len(), true);
         let ok = off.checked_add(data.len()).is_some_and(|e| e <= self.tr.config.len());
         self.ev(0x7b, off as u64, data.len() as u64);
         self.tr_event(TrEv::WriteConfig { off, len: data.len(), ok });
